@@ -54,7 +54,15 @@ func runSolver(sp solverSpec, file string, timeout int, withModel bool) (string,
 	cmd.Run()
 	el := time.Since(t0).Seconds()
 	s := out.String()
-	first := strings.TrimSpace(strings.SplitN(s, "\n", 2)[0])
+	first := ""
+	for _, l := range strings.Split(s, "\n") {
+		l = strings.TrimSpace(l)
+		if l == "" || strings.HasPrefix(l, "WARNING:") {
+			continue
+		}
+		first = l
+		break
+	}
 	if strings.Contains(s, "(error ") && !withModel {
 		for _, l := range strings.Split(s, "\n") {
 			if strings.Contains(l, "(error ") {
